@@ -11,7 +11,7 @@ namespace Sigc.SlotG
 structure Frame (c0 : Option Nat) (s s' : State) : Prop where
   regs : ∀ x X' c, s'.reps x = some X' → c ∈ X'.cbs → some c ≠ c0 → X'.call = true →
     ∃ X, s.reps x = some X ∧ c ∈ X.cbs ∧ X.call = true
-  conns : ∀ c, some c ≠ c0 → s'.conns c = s.conns c ∨ s'.conns c = some none
+  conns : ∀ c, some c ≠ c0 → s'.conns c = s.conns c ∨ s'.conns c = some none ∨ s'.conns c = none
 
 theorem Frame.refl (c0 : Option Nat) (s : State) : Frame c0 s s :=
   ⟨fun _ X' _ h hc _ hcall => ⟨X', h, hc, hcall⟩, fun _ _ => .inl rfl⟩
@@ -32,7 +32,8 @@ theorem Frame.trans {c0 : Option Nat} {s s1 s2 : State} (h1 : Frame c0 s s1) (h2
 theorem frame_of_sub {c0 : Option Nat} {s s' : State}
     (hr : ∀ x X', s'.reps x = some X' → (∀ c, c ∈ X'.cbs → some c = c0) ∨
       ∃ X, s.reps x = some X ∧ (∀ c, c ∈ X'.cbs → some c ≠ c0 → c ∈ X.cbs) ∧ (X'.call = true → X.call = true))
-    (hc : ∀ c, some c ≠ c0 → s'.conns c = s.conns c ∨ s'.conns c = some none) : Frame c0 s s' := by
+    (hc : ∀ c, some c ≠ c0 → s'.conns c = s.conns c ∨ s'.conns c = some none ∨ s'.conns c = none) :
+    Frame c0 s s' := by
   refine ⟨?_, hc⟩
   intro x X' c hx hm hne hcall
   rcases hr x X' hx with h | ⟨X, hX, h1, h2⟩
@@ -43,14 +44,15 @@ theorem frame_of_casc {s s' : State} (h : Casc s s') (c0 : Option Nat) : Frame c
   refine frame_of_sub ?_ ?_
   · intro x X' hx
     obtain ⟨X, hX, -, -, hcall, hcbs⟩ := h.reps x X' hx
-    refine .inr ⟨X, hX, by intro c hc _; rw [← hcbs]; exact hc, ?_⟩
+    refine .inr ⟨X, hX, by intro c hc _; exact hcbs c hc, ?_⟩
     intro h'; rcases hcall with h1 | h1
     · rw [← h1]; exact h'
     · rw [h1] at h'; cases h'
   · intro c _
-    rcases h.conns c with h1 | ⟨h1, -⟩
+    rcases h.conns c with h1 | ⟨h1, -⟩ | ⟨h1, -⟩
     · exact .inl h1
-    · exact .inr h1
+    · exact .inr (.inl h1)
+    · exact .inr (.inr h1)
 
 /-- a step that leaves representations and connections alone -/
 theorem frame_of_eq {s s' : State} (hr : s'.reps = s.reps) (hc : s'.conns = s.conns) (c0 : Option Nat) :
@@ -98,7 +100,7 @@ theorem frame_swapVar {s : State} (v q : Nat) (o : Option Nat) (c0 : Option Nat)
       split
       · cases hcc : s.conns c with
         | none => left; rfl
-        | some p => right; rfl
+        | some p => right; left; rfl
       · exact .inl rfl
 
 theorem frame_killVar {s : State} (v q : Nat) (c0 : Option Nat) : Frame c0 s (killVar v q s) := by
@@ -117,7 +119,7 @@ theorem frame_killVar {s : State} (v q : Nat) (c0 : Option Nat) : Frame c0 s (ki
       split
       · cases hcc : s.conns c with
         | none => left; rfl
-        | some p => right; rfl
+        | some p => right; left; rfl
       · exact .inl rfl
 
 theorem frame_of_ext {s s' : State} (E : Ext s s') (c0 : Option Nat) : Frame c0 s s' := by
@@ -149,54 +151,8 @@ theorem frame_eraseRep {s : State} (q : Nat) (c0 : Option Nat) : Frame c0 s (era
       split
       · cases hcc : s.conns c with
         | none => left; rfl
-        | some p => right; rfl
+        | some p => right; left; rfl
       · exact .inl rfl
-
-theorem frame_switchRep (s : State) (d n : Nat) (par : Option Nat) (c0 : Option Nat) :
-    Frame c0 s (switchRep d n par s) :=
-  (frame_modRep_same s n (fun N => { N with parent := par }) (fun _ => rfl) (fun _ => rfl) c0).trans
-    (frame_of_eq (reps_modSlot _ _ _) (conns_modSlot _ _ _) c0)
-
-theorem frame_exchange {s : State} (hI : Inv s) {d n : Nat} {N : Rep} (hn : s.reps n = some N)
-    (hnc : N.cbs = []) (horph : Orphan s n) (c0 : Option Nat) : Frame c0 s (exchangeRep d n s) := by
-  cases hq : repOf s d with
-  | none =>
-    rw [exchangeRep_eq]; simp only [hq]
-    exact frame_of_eq (reps_modSlot _ _ _) (conns_modSlot _ _ _) c0
-  | some q =>
-    obtain ⟨Q, hQ⟩ := hI.repAlive d q hq
-    rw [exchangeRep_some hq hQ]
-    obtain ⟨hI2, -, -⟩ := inv_switchRep hI hq hQ hn hnc horph
-    obtain ⟨hC, -⟩ := destroyRep_spec (fuel (switchRep d n Q.parent s)) q _ hI2
-    exact ((frame_switchRep s d n Q.parent c0).trans (frame_of_casc hC c0)).trans (frame_eraseRep q c0)
-
-theorem frame_deleteRepWithCheck {s : State} (hw : WF s) (v : Nat) (hnm : v < anonBase) (c0 : Option Nat)
-    (he : (deleteRepWithCheck v s).err = false) : Frame c0 s (deleteRepWithCheck v s) := by
-  have hI := hw.inv
-  rw [deleteRepWithCheck_eq] at he ⊢
-  cases hv : repOf s v with
-  | none => exact Frame.refl c0 s
-  | some r =>
-    simp only [hv] at he ⊢
-    by_cases ha : ((repDisconnect r s).reps r).isSome = true
-    · simp only [ha, if_true] at he ⊢
-      rw [err_eraseRep] at he
-      have he1 : (repDisconnect r s).err = false := by
-        cases hx : (repDisconnect r s).err with
-        | false => rfl
-        | true =>
-          rw [destroyRep_err_true _ _ _ (by rw [err_modSlot]; exact hx)] at he; exact absurd he (by simp)
-      obtain ⟨hC1, hI1⟩ := repDisconnect_spec hI r he1
-      have hv1 : repOf (repDisconnect r s) v = some r := by
-        simp only [repOf, repDisconnect_slot hI hv hnm he1]; exact hv
-      obtain ⟨hI2, -⟩ := inv_unhold hI1 hv1
-      obtain ⟨hC3, -⟩ := destroyRep_spec
-        (fuel ((repDisconnect r s).modSlot v fun V => { V with rep := none })) r _ hI2
-      exact (((frame_of_casc hC1 c0).trans (frame_of_eq (reps_modSlot _ _ _) (conns_modSlot _ _ _) c0)).trans
-        (frame_of_casc hC3 c0)).trans (frame_eraseRep r c0)
-    · simp only [ha] at he ⊢
-      obtain ⟨hC1, -⟩ := repDisconnect_spec hI r he
-      exact frame_of_casc hC1 c0
 
 theorem frame_weakNotify (r : Nat) (s : State) (c0 : Option Nat) : Frame c0 s (weakNotify r s) := by
   refine frame_of_sub ?_ ?_
@@ -215,8 +171,70 @@ theorem frame_weakNotify (r : Nat) (s : State) (c0 : Option Nat) : Frame c0 s (w
       split
       · cases hcc : s.conns c with
         | none => left; rfl
-        | some p => right; rfl
+        | some p => right; left; rfl
       · exact .inl rfl
+
+theorem frame_switchRep (s : State) (d n : Nat) (par : Option Nat) (c0 : Option Nat) :
+    Frame c0 s (switchRep d n par s) :=
+  (frame_modRep_same s n (fun N => { N with parent := par }) (fun _ => rfl) (fun _ => rfl) c0).trans
+    (frame_of_eq (reps_modSlot _ _ _) (conns_modSlot _ _ _) c0)
+
+theorem frame_exchange {s : State} (hI : Inv s) {d n : Nat} {N : Rep} (hn : s.reps n = some N)
+    (hnc : N.cbs = []) (horph : Orphan s n) (c0 : Option Nat) : Frame c0 s (exchangeRep d n s) := by
+  cases hq : repOf s d with
+  | none =>
+    rw [exchangeRep_eq]; simp only [hq]
+    exact frame_of_eq (reps_modSlot _ _ _) (conns_modSlot _ _ _) c0
+  | some q =>
+    obtain ⟨Q, hQ⟩ := hI.repAlive d q hq
+    have hne : n ≠ q := fun h => horph d (by rw [h]; exact hq)
+    rw [exchangeRep_some hq hQ hne]
+    have hI1 : Inv (weakNotify q s) := inv_weakNotify hI q
+    have hq1 : repOf (weakNotify q s) d = some q := by rw [repOf_weakNotify]; exact hq
+    have hQ1 : (weakNotify q s).reps q = some { Q with cbs := [] } := by
+      rw [reps_weakNotify, if_pos rfl, hQ]; rfl
+    have hn1 : (weakNotify q s).reps n = some N := by rw [reps_weakNotify, if_neg hne]; exact hn
+    have horph1 : Orphan (weakNotify q s) n := by intro w; rw [repOf_weakNotify]; exact horph w
+    obtain ⟨hI2, -, -⟩ := inv_switchRep (Q := { Q with cbs := [] }) hI1 hq1 hQ1 rfl hn1 hnc horph1
+    obtain ⟨hC, -⟩ := destroyRep_spec (fuel (switchRep d n Q.parent (weakNotify q s))) q _ hI2
+    exact (((frame_weakNotify q s c0).trans (frame_switchRep _ d n Q.parent c0)).trans
+      (frame_of_casc hC c0)).trans (frame_eraseRep q c0)
+
+theorem frame_deleteRepWithCheck {s : State} (hw : WF s) (v : Nat) (hnm : v < anonBase) (c0 : Option Nat)
+    (he : (deleteRepWithCheck v s).err = false) : Frame c0 s (deleteRepWithCheck v s) := by
+  have hI := hw.inv
+  rw [deleteRepWithCheck_eq] at he ⊢
+  cases hv : repOf s v with
+  | none => exact Frame.refl c0 s
+  | some r =>
+    simp only [hv] at he ⊢
+    by_cases ha : ((repDisconnect r s).reps r).isSome = true
+    · simp only [ha, if_true] at he ⊢
+      rw [err_eraseRep] at he
+      have he1 : (repDisconnect r s).err = false := by
+        cases hx : (repDisconnect r s).err with
+        | false => rfl
+        | true =>
+          rw [destroyRep_err_true _ _ _ (by rw [err_weakNotify, err_modSlot]; exact hx)] at he
+          exact absurd he (by simp)
+      obtain ⟨hC1, hI1⟩ := repDisconnect_spec hI r he1
+      have hv1 : repOf (repDisconnect r s) v = some r := by
+        simp only [repOf, repDisconnect_slot hI hv hnm he1]; exact hv
+      obtain ⟨R1, hR1⟩ := hI1.repAlive v r hv1
+      rw [weakNotify_modSlot] at he ⊢
+      have hI1' : Inv (weakNotify r (repDisconnect r s)) := inv_weakNotify hI1 r
+      have hv1' : repOf (weakNotify r (repDisconnect r s)) v = some r := by rw [repOf_weakNotify]; exact hv1
+      have hR1' : (weakNotify r (repDisconnect r s)).reps r = some { R1 with cbs := [] } := by
+        rw [reps_weakNotify, if_pos rfl, hR1]; rfl
+      obtain ⟨hI2, -⟩ := inv_unhold hI1' hv1' hR1' rfl
+      obtain ⟨hC3, -⟩ := destroyRep_spec
+        (fuel ((weakNotify r (repDisconnect r s)).modSlot v fun V => { V with rep := none })) r _ hI2
+      exact ((((frame_of_casc hC1 c0).trans (frame_weakNotify r _ c0)).trans
+        (frame_of_eq (reps_modSlot _ _ _) (conns_modSlot _ _ _) c0)).trans
+        (frame_of_casc hC3 c0)).trans (frame_eraseRep r c0)
+    · simp only [ha] at he ⊢
+      obtain ⟨hC1, -⟩ := repDisconnect_spec hI r he
+      exact frame_of_casc hC1 c0
 
 theorem frame_setConn (s : State) (c : Nat) (o : Option (Option Nat)) : Frame (some c) s (s.setConn c o) := by
   refine frame_of_sub ?_ ?_
